@@ -38,6 +38,10 @@ CHECKS = {
         "with their own refinement labels and guard empty graphs; descriptor "
         "equality is orbit membership over proven rotation groups; colours "
         "are aggregated order-free; relabel_atoms rebuilds every container.",
+        " relabel_atoms renames every identifier of the result totally "
+        "(R-RENAME-ALL / R-RENAME-TOTAL); memoised graph state is reset by "
+        "every identity-relevant edit (R-MEMO-INVALIDATE) and run-time caches "
+        "reachable from the anchors are keyed completely (R-CACHE-KEY).",
         "Not decided: that the search finds an isomorphism whenever one "
         "exists. Trusted: side seeds (record field names, (u, v, state, "
         "params) protocol).",
@@ -54,6 +58,11 @@ CHECKS = {
         "compare the mapped items of u with those of v and are registered "
         "for the right flags; the descriptor symmetry tables are the proper "
         "rotation groups (table theorems of C04).",
+        " Coverage filters of the stereo predicates admit the None "
+        "placeholder in every spelling (list and set forms); memoised colours "
+        "/ hashes are reset by every identity-relevant edit "
+        "(R-MEMO-INVALIDATE), so a != mutate(a) is not defeated by a stale "
+        "memo.",
         "Not decided: soundness of the pruning as an algorithm; brute-force "
         "agreement on small graphs is another family.",
         "DESIGN.md 3/C02"),
@@ -116,7 +125,10 @@ CHECKS = {
         "hashed in order; parity -1 is normalised; the bond-stereo "
         "contribution must be computed from real colours on the first trip "
         "(violated today: known finding F13, E/Z hash collision); every "
-        "return of the four hash functions hashes the refined colours.",
+        "return of the four hash functions hashes the refined colours; a "
+        "memoised hash / colouring is reset by every identity-relevant edit "
+        "(R-MEMO-INVALIDATE, typestate over all functions that modify a "
+        "graph container).",
         "Not decided: collision-freeness as such.",
         "DESIGN.md 3/C16"),
     "C17": (
@@ -125,8 +137,11 @@ CHECKS = {
         "Iterable parameters are consumed once on every path; every slot of "
         "every class is filled from the same slot of the source; bonds / "
         "neighbours / descriptors / changes are kept under universal "
-        "membership with None-aware tests; compose merges neighbour sets; "
-        "the component search has the work-list shape.",
+        "membership with None-aware tests; compose merges neighbour sets and "
+        "lets the later graph win in every table (R-COMPOSE-ORDER: forward "
+        "loop stores; ChainMap / setdefault / not-in guards / reversed "
+        "iteration each flip the winner); the component search has the "
+        "work-list shape.",
         "Not decided: maximality of components; value equality of the "
         "recomposed graph.",
         "DESIGN.md 3/C17"),
@@ -150,15 +165,16 @@ CHECKS = {
         "DESIGN.md 3/C07"),
     "C08": (
         "finite decision tables extracted from the AST and enumerated by "
-        "constant folding (bond membership 2x2, 4 roles, 64+16 descriptor "
-        "scenarios)",
+        "constant folding (bond membership 2x2, 4 roles, 64 atom + 25 bond "
+        "descriptor scenarios), exit-before-loop rule on reverse_reaction",
         "Exhaustive over the finite tables: from_graphs classifies bonds by "
         "membership; reactant()/product()/_ts() keep the right roles "
         "(following helper delegation); reverse_reaction swaps FORMED/BROKEN "
         "through set_bond_attribute for bonds and inside both change "
-        "dictionaries; for all 80 (reactant, product, TS) descriptor "
-        "scenarios overlay(static, broken) = reactant and overlay(static, "
-        "formed) = product.",
+        "dictionaries and has no exit that skips a swap loop unless the "
+        "skipped tables are empty (R-REVERSE-TOTAL); for all 89 (reactant, "
+        "product, TS, bond role) descriptor scenarios overlay(static, "
+        "broken) = reactant and overlay(static, formed) = product.",
         "Not decided: set equalities as values; reversing twice identical as "
         "a behaviour.",
         "DESIGN.md 3/C08"),
@@ -169,7 +185,12 @@ CHECKS = {
         "labels are transversals (3, 20, 30 pairwise unequal descriptors = "
         "n!/|G|), CW/CCW map to opposite parities, E/Z to unequal orderings; "
         "all 13 descriptor constructions and all atoms/bonds use "
-        "id_atom_map.",
+        "id_atom_map; no comparison or membership test relates an RDKit index "
+        "to an identifier (R-IDX-ID-MIX, flow-aware kind inference over 36 "
+        "sites) and neither is used as a truth value; the ring-cis inference "
+        "examines the smallest ring containing the bond (R-RING-CHOICE, the "
+        "code's own sort key folded over a 6- and an 8-ring record; defect "
+        "F43 repaired by fix b7bef9c).",
         "Not decided: invariance under RDKit renumbering / SMILES spelling "
         "(RDKit's neighbour order and tag semantics).",
         "DESIGN.md 3/C12"),
